@@ -30,6 +30,9 @@
 (*   "MtxfAlways"  MTXF is always written for WotLK+ (version marker)      *)
 (*   "BmeshNotMop" version detection ignores MBMH/MBBB/MBNV/MBMI: a MoP    *)
 (*                 tile with blend mesh but no MTXP loses the blend mesh   *)
+(*   "NoTruncate"  (never in the code; seeded behaviour) write_to_file      *)
+(*                 opens the destination without truncating: over a longer *)
+(*                 file the old tail survives                              *)
 (* Since the fix commits 4e9fa43, e3ee833, 428fad3, b1275d8, 1531bd2 and   *)
 (* 7ec19f1 the code has only "Pad8" and "MtxfAlways" (MC_AdtLayout.cfg).   *)
 (* McinExcl, MtxfToEof, RefsTriple, InjectMfbo, MclqIncl, BmeshNotMop      *)
@@ -116,6 +119,8 @@ GroupSizesOk(fo)  == LET ks == McnksOf(fo.top) IN
                      /\ \A gi \in 1..Len(fo.groups) : \A q \in 1..Len(fo.groups[gi].idxs) :
                             LET ix == fo.groups[gi].idxs[q] IN ix \in 1..Len(ks) /\ ks[ix].size = fo.groups[gi].size
                      /\ UNION {{fo.groups[gi].idxs[q] : q \in 1..Len(fo.groups[gi].idxs)} : gi \in 1..Len(fo.groups)} = 1..Len(ks)
+\* MMID / MWID: one entry per name, each the offset of the start of that name inside the MMDX / MWMO payload
+NameTableOk(starts, tab) == Len(tab) = Len(starts) /\ \A j \in 1..Len(tab) : tab[j] = starts[j]
 VersionRule(fo, ver) == \A j \in 1..Len(fo.top) : MayCarry(ver, fo.top[j].tag)
 
 \* ============================================================================ Part 2: the code
@@ -125,6 +130,14 @@ KindMin(kd)  == IF kd = "BMESH" THEN MoP ELSE MinVer(kd)
 \* AdtBuilder::build rejects MFBO/MH2O/MAMP/MTXP/blend mesh for too early versions; MTXF is not validated
 Validated == OptKinds \ {"MTXF"}
 BuildAccepts(ver, opts) == \A kd \in opts \cap Validated : ver >= KindMin(kd)
+
+\* The documented builder contract: build() returns Err exactly for (a) no texture (MTEX is required), (b) a placement
+\* whose name_id is not an index of the name list (here: placements without any name), (c) a validated optional kind
+\* below its minimum version.  An MTXF below WotLK is not validated (it is dropped); a stricter builder may reject it.
+\* Everything else is a valid tile and must build.  Duplicate names are valid: multiplicity is part of the list.
+ShapeMayBeRejected(ntex, nmdl, nddf, nwmo, nmodf, ver, opts) ==
+    \/ ntex = 0 \/ (nddf > 0 /\ nmdl = 0) \/ (nmodf > 0 /\ nwmo = 0)
+    \/ \E kd \in opts : ver < KindMin(kd)
 
 TopOrder == <<"MVER", "MHDR", "MCIN", "MTEX", "MMDX", "MMID", "MWMO", "MWID", "MDDF", "MODF",
               "MFBO", "MH2O", "MTXF", "MAMP", "MTXP", "MBMH", "MBBB", "MBNV", "MBMI">>
@@ -161,9 +174,11 @@ VARIABLES aver,    \* version of the BuiltAdt being serialised
           awsub,   \* walker log inside MCNKs: Seq(<<mcnk header offset, chunk rec>>)
           aparse,  \* result of the last parse: [ver, opts, subs, mtxf]
           around,  \* files produced so far - 1
-          alens    \* lengths of the files produced
-avars == <<aver, aopts, ank, asubs, amtxf, apc, acur, ahdrs, atop, apos, amhdr, amcin, akix, akstart, akofs, aktab,
+          alens,   \* lengths of the files produced
+          adisk    \* destination path of write_to_file: [round |-> round it was last written in, len |-> its length]
+acore == <<aver, aopts, ank, asubs, amtxf, apc, acur, ahdrs, atop, apos, amhdr, amcin, akix, akstart, akofs, aktab,
            afst, awtop, awsub, aparse, around, alens>>
+avars == <<acore, adisk>>
 
 Put(fn, o, r) == [q \in DOMAIN fn \cup {o} |-> IF q = o THEN r ELSE fn[q]]
 ZeroOfs  == [nm \in McnkOfsNames \cup McnkSizeNames |-> 0]
@@ -181,12 +196,13 @@ WriterStart == /\ apc = "MVER" /\ acur = 0 /\ ahdrs = << >> /\ atop = << >> /\ a
 
 Init == /\ aver \in Versions /\ aopts \in SUBSET OptKinds /\ ank \in {0, 2} /\ asubs \in SUBSET {"MCRF", "MCLQ", "MCCV"}
         /\ amtxf = Sz("MTXF") /\ aparse = NoParse /\ around = 0 /\ alens = << >>
+        /\ adisk = [round |-> -1, len |-> 0]
         /\ WriterStart
 
 \* AdtBuilder::build -- version / chunk compatibility
 BuildReject == /\ apc = "MVER" /\ around = 0 /\ ~BuildAccepts(aver, aopts)
                /\ apc' = "rejected"
-               /\ UNCHANGED <<aver, aopts, ank, asubs, amtxf, acur, ahdrs, atop, apos, amhdr, amcin, akix, akstart, akofs, aktab,
+               /\ UNCHANGED adisk /\ UNCHANGED <<aver, aopts, ank, asubs, amtxf, acur, ahdrs, atop, apos, amhdr, amcin, akix, akstart, akofs, aktab,
                               afst, awtop, awsub, aparse, around, alens>>
 
 \* does serialize_to_writer emit top-level chunk t for this BuiltAdt?
@@ -206,7 +222,7 @@ EmitTop(t) == /\ apc = t /\ (around > 0 \/ BuildAccepts(aver, aopts))
               /\ apos'  = Put(apos, t, acur)
               /\ acur'  = acur + HDR + TopSize(t)
               /\ apc'   = NextTop(t)
-              /\ UNCHANGED <<aver, aopts, ank, asubs, amtxf, amhdr, amcin, akix, akstart, akofs, aktab, afst, awtop, awsub,
+              /\ UNCHANGED adisk /\ UNCHANGED <<aver, aopts, ank, asubs, amtxf, amhdr, amcin, akix, akstart, akofs, aktab, afst, awtop, awsub,
                              aparse, around, alens>>
 EmitMVER == EmitTop("MVER")   EmitMHDR == EmitTop("MHDR")   EmitMCIN == EmitTop("MCIN")   EmitMTEX == EmitTop("MTEX")
 EmitMMDX == EmitTop("MMDX")   EmitMMID == EmitTop("MMID")   EmitMWMO == EmitTop("MWMO")   EmitMWID == EmitTop("MWID")
@@ -227,14 +243,14 @@ OpenMcnk == /\ apc = "MCNK"
                         ELSE Put(ahdrs, acur, [tag |-> "MCNK", size |-> 0])                     \* placeholder
             /\ acur' = acur + HDR + McnkHdr + (IF Dev("Pad8") THEN 8 ELSE 0)
             /\ apc' = NextSub(0)
-            /\ UNCHANGED <<aver, aopts, ank, asubs, amtxf, atop, apos, amhdr, amcin, aktab, afst, awtop, awsub, aparse, around, alens>>
+            /\ UNCHANGED adisk /\ UNCHANGED <<aver, aopts, ank, asubs, amtxf, atop, apos, amhdr, amcin, aktab, afst, awtop, awsub, aparse, around, alens>>
 EmitSub(t) == /\ apc = t /\ t \in SubsOf
               /\ ahdrs' = Put(ahdrs, acur, [tag |-> t, size |-> Sz(t)])
               /\ akofs' = LET withOfs == IF akofs[SubOfsName(t)] = 0 THEN [akofs EXCEPT ![SubOfsName(t)] = acur - akstart] ELSE akofs
                            IN IF SubSizeField(t)[1] = "none" THEN withOfs ELSE [withOfs EXCEPT ![SubSizeField(t)[1]] = SubSizeField(t)[2]]
               /\ acur' = acur + HDR + Sz(t)
               /\ apc' = NextSub(CHOOSE j \in 1..Len(SubOrder) : SubOrder[j] = t)
-              /\ UNCHANGED <<aver, aopts, ank, asubs, amtxf, atop, apos, amhdr, amcin, akix, akstart, aktab, afst, awtop, awsub,
+              /\ UNCHANGED adisk /\ UNCHANGED <<aver, aopts, ank, asubs, amtxf, atop, apos, amhdr, amcin, akix, akstart, aktab, afst, awtop, awsub,
                              aparse, around, alens>>
 EmitMCVT == EmitSub("MCVT")   EmitMCNR == EmitSub("MCNR")   EmitMCLY == EmitSub("MCLY")   EmitMCRF == EmitSub("MCRF")
 EmitMCLQ == EmitSub("MCLQ")   EmitMCCV == EmitSub("MCCV")   EmitMCRD == EmitSub("MCRD")   EmitMCRW == EmitSub("MCRW")
@@ -245,7 +261,7 @@ CloseMcnk == /\ apc = "close"
                 /\ atop'  = Append(atop, [tag |-> "MCNK", off |-> akstart, size |-> sz])
                 /\ aktab' = Append(aktab, [off |-> akstart, size |-> sz, f |-> akofs])
              /\ apc' = IF akix < NMcnk THEN "MCNK" ELSE "patchMHDR"
-             /\ UNCHANGED <<aver, aopts, ank, asubs, amtxf, acur, apos, amhdr, amcin, akix, akstart, akofs, afst, awtop, awsub,
+             /\ UNCHANGED adisk /\ UNCHANGED <<aver, aopts, ank, asubs, amtxf, acur, apos, amhdr, amcin, akix, akstart, akofs, afst, awtop, awsub,
                             aparse, around, alens>>
 
 \* ---- pass 2
@@ -258,14 +274,14 @@ BackPatchMHDR ==
                       IF nm = "flags" THEN (IF PosOf("MFBO") # 0 THEN 1 ELSE 0) + (IF PosOf("MH2O") # 0 THEN 2 ELSE 0)
                       ELSE rel(MhdrTag(nm))]
     /\ apc' = "patchMCIN"
-    /\ UNCHANGED <<aver, aopts, ank, asubs, amtxf, acur, ahdrs, atop, apos, amcin, akix, akstart, akofs, aktab, afst, awtop, awsub,
+    /\ UNCHANGED adisk /\ UNCHANGED <<aver, aopts, ank, asubs, amtxf, acur, ahdrs, atop, apos, amcin, akix, akstart, akofs, aktab, afst, awtop, awsub,
                    aparse, around, alens>>
 BackPatchMCIN ==
     /\ apc = "patchMCIN"
     /\ amcin' = [j \in 1..NK |-> IF j <= Len(aktab)
                                  THEN <<aktab[j].off, aktab[j].size + (IF Dev("McinExcl") THEN 0 ELSE HDR)>> ELSE <<0, 0>>]
     /\ apc' = "walk" /\ afst' = CfInit(acur) /\ alens' = Append(alens, acur)
-    /\ UNCHANGED <<aver, aopts, ank, asubs, amtxf, acur, ahdrs, atop, apos, amhdr, akix, akstart, akofs, aktab, awtop, awsub,
+    /\ UNCHANGED adisk /\ UNCHANGED <<aver, aopts, ank, asubs, amtxf, acur, ahdrs, atop, apos, amhdr, akix, akstart, akofs, aktab, awtop, awsub,
                    aparse, around>>
 
 \* ---- the independent walker: knows the framing rule, that MCNK is a container with a McnkHdr-byte header
@@ -278,39 +294,39 @@ WalkLeaf  == /\ apc = "walk" /\ afst.cur < CfTop(afst).end /\ afst.cur \in DOMAI
                                               [tag |-> WHdr.tag, off |-> afst.cur - awtop[Len(awtop)].off, size |-> WHdr.size]>>)
                      /\ awtop' = awtop
              /\ afst' = CfLeaf(afst, afst.cur, WHdr.size)
-             /\ UNCHANGED <<aver, aopts, ank, asubs, amtxf, apc, acur, ahdrs, atop, apos, amhdr, amcin, akix, akstart, akofs, aktab,
+             /\ UNCHANGED adisk /\ UNCHANGED <<aver, aopts, ank, asubs, amtxf, apc, acur, ahdrs, atop, apos, amhdr, amcin, akix, akstart, akofs, aktab,
                             aparse, around, alens>>
 WalkEnter == /\ apc = "walk" /\ afst.cur < CfTop(afst).end /\ afst.cur \in DOMAIN ahdrs /\ WHdr.tag = "MCNK" /\ CfDepth(afst) = 1
              /\ CfCanEnter(afst, afst.cur, WHdr.size, McnkHdr)
              /\ awtop' = Append(awtop, [tag |-> "MCNK", off |-> afst.cur, size |-> WHdr.size])
              /\ afst' = CfEnter(afst, "MCNK", afst.cur, WHdr.size, McnkHdr)
-             /\ UNCHANGED <<aver, aopts, ank, asubs, amtxf, apc, acur, ahdrs, atop, apos, amhdr, amcin, akix, akstart, akofs, aktab,
+             /\ UNCHANGED adisk /\ UNCHANGED <<aver, aopts, ank, asubs, amtxf, apc, acur, ahdrs, atop, apos, amhdr, amcin, akix, akstart, akofs, aktab,
                             awsub, aparse, around, alens>>
 WalkLeave == /\ apc = "walk" /\ CfCanLeave(afst)
              /\ afst' = CfLeave(afst)
-             /\ UNCHANGED <<aver, aopts, ank, asubs, amtxf, apc, acur, ahdrs, atop, apos, amhdr, amcin, akix, akstart, akofs, aktab,
+             /\ UNCHANGED adisk /\ UNCHANGED <<aver, aopts, ank, asubs, amtxf, apc, acur, ahdrs, atop, apos, amhdr, amcin, akix, akstart, akofs, aktab,
                             awtop, awsub, aparse, around, alens>>
 WalkDone  == /\ apc = "walk" /\ CfDone(afst)
              /\ apc' = "parse"
-             /\ UNCHANGED <<aver, aopts, ank, asubs, amtxf, acur, ahdrs, atop, apos, amhdr, amcin, akix, akstart, akofs, aktab,
+             /\ UNCHANGED adisk /\ UNCHANGED <<aver, aopts, ank, asubs, amtxf, acur, ahdrs, atop, apos, amhdr, amcin, akix, akstart, akofs, aktab,
                             afst, awtop, awsub, aparse, around, alens>>
 
 \* ---- parse_adt: discovery of top-level chunks, version from presence, sub-chunks through ofs_*
 TopTags == {atop[j].tag : j \in 1..Len(atop)}
 LastSubIsMclq == Len(awsub) > 0 /\ awsub[Len(awsub)][2].tag = "MCLQ" /\ awsub[Len(awsub)][1] = aktab[Len(aktab)].off
 ParseFails == Dev("MclqIncl") /\ LastSubIsMclq      \* reads size_liquid = size + 8 bytes after the MCLQ header: past EOF
-ParseFail == /\ apc = "parse" /\ ParseFails /\ apc' = "parsefail"
-             /\ UNCHANGED <<aver, aopts, ank, asubs, amtxf, acur, ahdrs, atop, apos, amhdr, amcin, akix, akstart, akofs, aktab,
+ParseFail == /\ apc = "parse" /\ adisk.round = around /\ ParseFails /\ apc' = "parsefail"
+             /\ UNCHANGED adisk /\ UNCHANGED <<aver, aopts, ank, asubs, amtxf, acur, ahdrs, atop, apos, amhdr, amcin, akix, akstart, akofs, aktab,
                             afst, awtop, awsub, aparse, around, alens>>
 ParsedKinds(dv) == {kd \in OptKinds : dv >= KindMin(kd) /\ \A j \in 1..Len(KindTags(kd)) : KindTags(kd)[j] \in TopTags}
-Parse == /\ apc = "parse" /\ ~ParseFails
+Parse == /\ apc = "parse" /\ adisk.round = around /\ ~ParseFails
          /\ LET dv == Detect(TopTags) IN
             aparse' = [ver |-> dv, opts |-> ParsedKinds(dv),
                        subs |-> IF Dev("RefsTriple") /\ "MCRF" \in SubsOf THEN (SubsOf \cup {"MCRD", "MCRW"}) ELSE SubsOf,
                        mtxf |-> IF "MTXF" \in TopTags
                                 THEN (IF Dev("MtxfToEof") THEN acur - (apos["MTXF"] + HDR) ELSE TopSize("MTXF")) ELSE 0]
          /\ apc' = IF around < MaxRounds THEN "rebuild" ELSE "done"
-         /\ UNCHANGED <<aver, aopts, ank, asubs, amtxf, acur, ahdrs, atop, apos, amhdr, amcin, akix, akstart, akofs, aktab,
+         /\ UNCHANGED adisk /\ UNCHANGED <<aver, aopts, ank, asubs, amtxf, acur, ahdrs, atop, apos, amhdr, amcin, akix, akstart, akofs, aktab,
                         afst, awtop, awsub, around, alens>>
 \* BuiltAdt::from_root_adt(root, None) followed by to_bytes
 FromParsed == /\ apc = "rebuild"
@@ -323,7 +339,16 @@ FromParsed == /\ apc = "rebuild"
               /\ amhdr' = ZeroMhdr /\ amcin' = [j \in 1..NK |-> <<0, 0>>]
               /\ akix' = 0 /\ akstart' = 0 /\ akofs' = ZeroOfs /\ aktab' = << >>
               /\ afst' = CfInit(0) /\ awtop' = << >> /\ awsub' = << >>
-              /\ UNCHANGED <<aparse, alens>>
+              /\ UNCHANGED adisk /\ UNCHANGED <<aparse, alens>>
+
+\* BuiltAdt::write_to_file onto a path that is absent / holds a shorter file / holds a longer file.  File::create
+\* truncates, so the file is exactly the serialised bytes whatever was there before.
+PreLen(pre) == CASE pre = "absent" -> 0 [] pre = "shorter" -> acur \div 3 [] pre = "longer" -> acur + acur \div 2 + 1000
+WriteToPath(pre) == /\ apc = "parse" /\ adisk.round # around
+                    /\ adisk' = [round |-> around,
+                                 len |-> IF Dev("NoTruncate") /\ PreLen(pre) > acur THEN PreLen(pre) ELSE acur]
+                    /\ UNCHANGED acore
+WriteAbsent == WriteToPath("absent")   WriteShorter == WriteToPath("shorter")   WriteLonger == WriteToPath("longer")
 
 Next == \/ BuildReject
         \/ EmitMVER \/ EmitMHDR \/ EmitMCIN \/ EmitMTEX \/ EmitMMDX \/ EmitMMID \/ EmitMWMO \/ EmitMWID \/ EmitMDDF \/ EmitMODF
@@ -332,6 +357,7 @@ Next == \/ BuildReject
         \/ BackPatchMHDR \/ BackPatchMCIN
         \/ WalkLeaf \/ WalkEnter \/ WalkLeave \/ WalkDone
         \/ ParseFail \/ Parse \/ FromParsed
+        \/ WriteAbsent \/ WriteShorter \/ WriteLonger
 
 \* ============================================================================ invariants
 Writing == apc \notin {"walk", "parse", "parsefail", "rebuild", "done", "rejected"}
@@ -362,6 +388,9 @@ McinPointsAtMcnk  == Walked => \A j \in 1..NK : /\ McinOffOk(Observed, j)
 McnkOfsPointAtNamed == Walked => \A j \in 1..Len(Observed.groups) : \A nm \in McnkOfsNames :
                                      OfsPoints(Observed.groups[j], nm) /\ OfsComplete(Observed.groups[j], nm)
 McnkSizeFieldsConsistent == Walked => \A j \in 1..Len(Observed.groups) : \A nm \in McnkSizeNames : SizeFieldOk(Observed.groups[j], nm)
+\* every public way of producing the bytes yields the same bytes: the written file is exactly as long as to_bytes()
+\* (so the framing that tiles the bytes tiles the file)
+FileEqualsBytes == (adisk.round = around /\ Walked) => adisk.len = acur
 \* a file of version v carries only chunks v may carry; detection never reports a later version than written
 VersionRuleHolds == Walked => VersionRule(Observed, aver) /\ Detect(TopTags) <= aver
 \* content kept by parse: the only top-level content a parse loses is a blend mesh without MTXP (detected < MoP),
